@@ -227,9 +227,11 @@ def RState.afterItems (r : RState) (big preferTruncation : Bool) : Except RErr R
     else .error .tooBig
   else .ok r
 
-/-- reserves, the section loops and the `TooBig` handler -/
+/-- the reserve check (`TooBig` when OPT and TSIG alone do not fit), reserves, the section loops and the
+`TooBig` handler -/
 def Message.renderSections (m : Message) (limit : Nat) (preferTruncation : Bool) (optRes tsigRes : Nat) :
     Except RErr RState :=
+  if optRes + tsigRes > limit then .error .tooBig else
   match (RState.init m.id m.flags limit m.origin).reserve optRes with
   | .error e => .error e
   | .ok r =>
@@ -240,7 +242,8 @@ def Message.renderSections (m : Message) (limit : Nat) (preferTruncation : Bool)
       | .error e => .error e
       | .ok (r, big) => r.afterItems big preferTruncation
 
-/-- `release_reserved`, `add_opt`, `write_header`, TSIG, `write_header` -/
+/-- `release_reserved`, `add_opt`, `write_header`, TSIG (rendered against a fresh, empty compression table:
+`r.compress = {}`, so that its owner name is never compressed and the reserve is exact), `write_header` -/
 def RState.finish (r : RState) (opt : Option EOpt) (tsig : Option Tsig) (pad optRes tsigRes : Nat) :
     Except RErr RState :=
   let r := r.releaseReserved
@@ -254,7 +257,7 @@ def RState.finish (r : RState) (opt : Option EOpt) (tsig : Option Tsig) (pad opt
     match tsig with
     | none => .ok r
     | some t =>
-      match stepToExcept (r.addRRset ConstsC03.secADDITIONAL (tsigRRset t)) with
+      match stepToExcept (({ r with tbl := [] } : RState).addRRset ConstsC03.secADDITIONAL (tsigRRset t)) with
       | .error e => .error e
       | .ok r => .ok r.writeHeader
 
